@@ -6,7 +6,7 @@ import gen_json as G
 import pipelib as PL
 
 FIELDS = ["a", "b", "c", "d", "e"]
-NASTY = ['"', ',', '\r', '\n', '\t', ' ', 'é', 'x', '""', ', ', '\r\n', '日', "'", '\\', ';']
+NASTY = ['"', ',', '\r', '\n', '\t', ' ', 'é', 'x', '""', ', ', '\r\n', '日', "'", '\\', ';', '\U0001F603', '\U00010000']
 
 
 def rand_str(rnd, forbid=""):
